@@ -397,14 +397,14 @@ func (n *Node) teardown() error {
 	n.logLock.Lock()
 	n.done = true
 	var lastErr error
-	for _, w := range []*bufio.Writer{n.logWriter, n.stdoutWriter} {
+	for _, w := range []*bufio.Writer{n.logWriter, n.stdoutWriter, n.stderrWriter} {
 		if w != nil {
 			if err := w.Flush(); err != nil {
 				lastErr = err
 			}
 		}
 	}
-	for _, f := range []*os.File{n.logFile, n.stdoutFile} {
+	for _, f := range []*os.File{n.logFile, n.stdoutFile, n.stderrFile} {
 		if f != nil {
 			if err := f.Sync(); err != nil {
 				lastErr = err
